@@ -21,6 +21,16 @@ type nativeCase struct {
 	Harness string       `json:"harness"`
 	Tier    int          `json:"tier"`
 	Draws   []replayDraw `json:"draws"`
+	Expect  string       `json:"expect,omitempty"`
+}
+
+func hasLayoutDraw(ds []replayDraw) bool {
+	for _, d := range ds {
+		if strings.HasPrefix(d.Name, "layout:") {
+			return true
+		}
+	}
+	return false
 }
 
 type nativeResult struct {
@@ -254,7 +264,7 @@ func (r *report) finish(doReplay bool) int {
 			}
 			var cases []nativeCase
 			for _, v := range j.violations {
-				cases = append(cases, nativeCase{Harness: v.Harness, Tier: r.tierInt(), Draws: v.Draws})
+				cases = append(cases, nativeCase{Harness: v.Harness, Tier: r.tierInt(), Draws: v.Draws, Expect: v.Label})
 			}
 			res, err := nr.run(j.rel, j.ld, cases)
 			if err != nil {
@@ -265,6 +275,16 @@ func (r *report) finish(doReplay bool) int {
 				nat := res[i]
 				ok := false
 				switch {
+				case v.Label == "terminates":
+					// confirmed if the native run, alone in its process,
+					// does not finish within the deadline
+					os.Setenv("VERIF_REPLAY_DEADLINE_S", "20")
+					one, err := nr.run(j.rel, j.ld, cases[i:i+1])
+					os.Unsetenv("VERIF_REPLAY_DEADLINE_S")
+					if err == nil && len(one) == 1 {
+						nat = one[0]
+					}
+					ok = nat.Status == "timeout"
 				case v.Label == "no-panic":
 					ok = nat.Status == "panic"
 				case strings.HasPrefix(v.Label, "alloc-bounded@"):
@@ -312,6 +332,9 @@ func (r *report) finish(doReplay bool) int {
 				}
 				if same {
 					validated++
+				} else if nat.Status == "assume" && hasLayoutDraw(s.Draws) {
+					// the sampled index lies outside the native range (the
+					// byte layout differs): not comparable
 				} else if !j.mapOrder {
 					valMismatch++
 					unconfMsgs = append(unconfMsgs, fmt.Sprintf("%s: validation trace differs: engine %s %v / native %s %s %v (draws %v)", j.name, s.Status, s.Obs, nat.Status, nat.Msg, nat.Obs, s.Draws))
